@@ -45,6 +45,9 @@ def wire_packets(kind: str, msgs, rng: random.Random, with_bad: bool = True):
                 bad = bytearray(enc.encode_usb(m)[0])
                 bad[12] ^= 0x01                      # checksum no longer matches
                 pk.append((bytes(bad), "bad-checksum"))
+            if with_bad and i % 2 == 1:
+                # line noise that cannot be mistaken for a packet start (no marker, no half marker at its ends)
+                pk.append((bytes([0x01, 0x02, 0x7f, 0x03, 0x10 + i]), "noise"))
         elif kind == "yd":
             for p in enc.encode_yacht_devices(m):
                 pk.append((b"00:00:0%d.000 R " % (i % 10) + p, "valid"))
